@@ -278,12 +278,12 @@ def _static_cg(
         # ValueError("implausible or zero curvature in conjugate gradient")
         info = jnp.where(curv <= 0.0, jnp.where(_raise_nonposdef, -1, 0), info)
         alpha = jnp.where((curv <= 0.0) & (not _raise_nonposdef), 0.0, alpha)
-        pos = pos - alpha * d
-        pos = where(
+        alpha = jnp.where(
             (curv < 0.0) & (not _raise_nonposdef) & (i <= 1),
-            previous_energy / (-curv) * (-j),
-            pos,
+            previous_gamma / (-curv),
+            alpha,
         )
+        pos = pos - alpha * d
         r = cond(
             (i % N_RESET == 0) & (info < -1),
             lambda x: mat(x["pos"]) - x["j"],
